@@ -32,6 +32,9 @@ use crate::state::{
 };
 
 const MINIMUM_COLLECTABLE_BALANCE: Uint128 = Uint128::new(1_000u128);
+/// Verification hook (compiled only with `--cfg wwcore_verif`): the collection threshold.
+#[cfg(wwcore_verif)]
+pub const VERIF_MINIMUM_COLLECTABLE_BALANCE: Uint128 = MINIMUM_COLLECTABLE_BALANCE;
 
 /// Receives cw20 tokens. Used to swap and withdraw from the pool.
 /// If the Cw20HookMsg is Swap, the user must call IncreaseAllowance on the cw20 token first to allow
